@@ -48,7 +48,13 @@ fn run_repl() {
 }
 
 fn run_file(f: &Path) {
-    let program = fs::read_to_string(f).unwrap();
+    let program = match fs::read_to_string(f) {
+        Ok(program) => program,
+        Err(e) => {
+            eprintln!("kan {} niet lezen: {e}", f.display());
+            return;
+        }
+    };
 
     match eval(&program) {
         Ok(obj) => println!("{obj}"),
